@@ -62,10 +62,13 @@ def judge(d, orig_files):
     probs = []
     if any(n["zid"] is None for n in comp):
         probs.append("a note in a file has no ZID although the index was brought up to date")
+    bad_pages = set()
     if idx != comp:
         only_idx = [n["zid"] for n in idx if n not in comp][:3]
         only_file = [n["zid"] for n in comp if n not in idx][:3]
+        bad_pages = {n["page"] for n in idx if n not in comp} | {n["page"] for n in comp if n not in idx}
         probs.append("index and files disagree (only in index: %s, only in files: %s)" % (only_idx, only_file))
+    judge.bad_pages = bad_pages
     zs = [n["zid"] for n in idx if n["zid"]]
     if len(zs) != len(set(zs)):
         probs.append("a ZID is assigned to two notes")
@@ -115,6 +118,7 @@ def explore(eng, oc, rng, cmd, tmp):
         before = trace[:k - 1]
         oc.nontriv((cmd, k, label, who))
         probs = judge(d, orig)
+        bad_pages = set(getattr(judge, "bad_pages", set()))
         if rc2 != 0:
             probs.insert(0, "the re-run failed (exit %d)" % rc2)
         trig = None
@@ -130,7 +134,8 @@ def explore(eng, oc, rng, cmd, tmp):
                 stamped_pages = sorted({o[1] for o in ops_applied if o[0] == "editnote"})
                 order = sorted({o[1] for o in ops_applied if o[0] in ("editnote", "addnote", "newpage")})
                 done_pages = order[:commits_done]
-                if any(p in stamped_pages for p in done_pages):
+                names = {c06.page_name(p) for p in done_pages if p in stamped_pages}
+                if names and bad_pages <= names and all("disagree" in x for x in probs):
                     trig = "stamp_commit_before_writeback"
         if probs:
             oc.spec_fail.append(({"cmd": cmd, "ops": ops, "crash_before_effect": k, "effect": label, "in": who,
